@@ -776,7 +776,9 @@ def run(chk):
     chk.rule = ('spaces: degree 1-5 (1-D: to 10 in thorough) x clamped/periodic x {uniform,non-uniform} x {dyadic = exact family, '
                 'generic floats}; x = every breakpoint, both ends, one ulp on each side of every breakpoint, random interior; '
                 'random coefficients (periodic wrap); all (der1,der2); a case = (entry point family, space, derivative, point)')
-    chk.proof_side(build=not getattr(chk, 'no_build', False))
+    # Props/C07Gen.lean is about the span search REGENERATED from spline_eval_funcs.py
+    common.run_translator(chk, 'translate_pure.py', '--only', 'findspan')
+    chk.proof_side(build=not getattr(chk, 'no_build', False), extra_props=('C07Gen',))
     drv = common.LeanDriver('C07.lean')
     rng = chk.rng
     try:
